@@ -3,6 +3,9 @@
 (*  Compress   cap status unwound rs_set rs guards valid                     *)
 (*  Decompress cap need status unwound rs_set rs guards valid frame          *)
 (*  Done                                                                     *)
+(* frame: valid | garbage | frame-of-junk | truncated | empty | damaged (a   *)
+(* container damaged after it was written; called in one process right       *)
+(* before good calls, whose demands are the same as ever: field `after`).    *)
 (* For compress, `needed` is the size zstd actually produced and success is  *)
 (* only required from ZSTD_compressBound upwards (between the two either     *)
 (* status is allowed, but 0 must be correct).                                *)
@@ -19,13 +22,16 @@ Comp(c) == Demand(c.status, c.unwound, c.rs_set, c.rs, c.guards, c.valid, c.cap,
            /\ (c.cap < Rec[base].needed => c.status < 0)
 CompEv == /\ IsEvent("Compress") /\ phase = "run" /\ Comp(Rec[l])
           /\ ok0' = ok0 + (IF Rec[l].status = 0 THEN 1 ELSE 0) /\ UNCHANGED <<base, phase>>
-Dec(c) == Demand(c.status, c.unwound, c.rs_set, c.rs, c.guards, c.valid, c.cap,
-                 c.need, c.need, c.frame = "valid")
+Dec(c) == IF c.frame = "damaged" THEN DemandDamaged(c.status, c.unwound, c.rs_set, c.rs, c.guards, c.cap)
+          ELSE Demand(c.status, c.unwound, c.rs_set, c.rs, c.guards, c.valid, c.cap,
+                      c.need, c.need, c.frame = "valid")
 DecEv == /\ IsEvent("Decompress") /\ phase = "run" /\ Dec(Rec[l])
          /\ ok0' = ok0 + (IF Rec[l].status = 0 THEN 1 ELSE 0) /\ UNCHANGED <<base, phase>>
 \* the round trip through both wrappers happened at least once per file
 Done == IsEvent("Done") /\ phase = "run" /\ ok0 >= 2 /\ phase' = "idle" /\ UNCHANGED <<base, ok0>>
-Next == Reset \/ CompEv \/ DecEv \/ Done
+\* the child process running a sequence that starts with damaged containers was ended by its limits
+Died == IsEvent("SequenceDied") /\ phase = "run" /\ UNCHANGED <<base, phase, ok0>>
+Next == Reset \/ CompEv \/ DecEv \/ Died \/ Done
 Spec == Init /\ [][Next]_vars
 Accepted ==
   LET d == TLCGet("stats").diameter IN
